@@ -9,3 +9,9 @@
 ./tools_mut.py C12 network/structs.py 'if len(self._queue) >= self.max_queue_size:' 'if not len(self._queue) < self.max_queue_size:'
 ./tools_mut.py C12 network/mixins.py '        if enabled != self._frag_enabled:' '        if True:'
 ./tools_mut.py C12 network/structs.py 'if len(self._queue) >= self.max_queue_size:' 'if len(self._queue) == self.max_queue_size:'
+./tools_mut.py C12 network/structs.py '        if queue is not None:' '        if queue:'
+./tools_mut.py C12 network/structs.py '                    result = super().enqueue(self._frags)' '                    result = len(self._queue) < self.max_queue_size
+                    if result:
+                        self._queue.append(self._frags)
+                        self._frags = RF24NetworkFrame()'
+./tools_mut.py C12 network/structs.py '                    result = super().enqueue(self._frags)' '                    result = FrameQueue.enqueue(self, self._frags)'
